@@ -657,8 +657,8 @@ fn main() {
         process(&mut out, &args, &h, 0);
     } else {
         let mut rng = Rng::new(args.seed ^ 0x33);
-        let n_hand = args.scale(40, 600);
-        let n_gen = args.scale(30, 500);
+        let n_hand = args.scale(24, 600);
+        let n_gen = args.scale(16, 500);
         for i in 0..n_hand { let n_ops = *rng.pick(&[6usize, 12, 20, 30]); let h = hand_history(&mut rng, n_ops); process(&mut out, &args, &h, i); }
         for i in 0..n_gen { let h = generated_history(&mut rng); process(&mut out, &args, &h, n_hand + i); }
     }
